@@ -28,13 +28,22 @@ Status
   side of a loss-free closed system unaltered and in time — is not composed in Lean (see the
   comment at `C17_join_partial`); it is exercised by the correspondence runs of
   `harness/props/c17.py` (real master and 1..12 real joiners on the simulated medium).
+* closed system, loss-free (last section of this file): every unacknowledged `_write` of a join
+  (`C17_write_unacked_closed`, `C17_receive_pipe0`), the master's `update()` on a request
+  (`C17_leg_master_request_closed`) and the request/response leg end to end for two nodes
+  (`C17_leg_request_closed`) **are** composed; the whole `renew_address()` still is not (missing: poll
+  leg with the 55 ms window, `_begin(a)` on the radio, the acknowledged double-check lookup).
 -/
 import NrfProofs.MeshJoinK
+import NrfProofs.C17JoinExample
 import NrfProofs.PySetK
 import NrfProps.C16
 
 namespace Nrf.Props.C17
-open Nrf Nrf.Net Nrf.NetK Nrf.Spec Nrf.Spec.MeshProtocol Nrf.Proofs.MeshK Nrf.Proofs.PySetK
+open Nrf Nrf.NetK Nrf.Spec Nrf.Spec.MeshProtocol Nrf.Proofs.MeshK Nrf.Proofs.PySetK
+-- (the closed-system files imported for the last section define their own `Nrf.Net.nexec` and simp set)
+open Nrf.Net hiding nexec nexec_bind nexec_pure nexec_getNode nexec_nowNs nexec_liftRf nexec_modNode nexec_setHdr
+  nexec_sleepNs nexec_takeId nexec_get nexec_set nexec_ite nexec_throw nexec_liftPy nexec_tryCatch nexec_map nexec_modify
 
 /-! ## lookups -/
 
@@ -507,5 +516,239 @@ example : Nrf.Props.C16.FromOk 0o4444 ∧ Nrf.Props.C16.FromOk 0o5 ∧ Inv ([] :
 
 /-- the first joiner (ID 7) reaching the master directly gets 0o5, as C16 says -/
 example : (Mesh.dhcp [] 0o4444 7 true).1 = [(7, 0o5)] := by decide
+
+end Nrf.Props.C17
+
+/-! ## joining, end to end in the closed system (`runOthers`), loss-free
+
+The radio-level delivery between the two ends of a join, composed in Lean over the closed-system
+semantics (NrfModel/Net/Node.lean: `runOthers` lets the master run `update()` at the joiner's next
+`read()`), with the driver contracts proved about the driver model (`l3contracts`, and for the
+unacknowledged transmit role the two new ones of NrfProofs/C17JoinDrv.lean).
+
+Sequence of a direct join (model and real code agree: `net 2 1 new m master 0 0 ; new x mesh 1 7 ;
+x renew 1500 ; m lookup_address 7` → six frames on the air, result 5, table `[7:5]`):
+
+  1. joiner `_write(0, TX_MULTICAST)`: NETWORK_POLL to pipe 0 of address 0, **no acknowledgement**
+     (`_logi_2_phys`: every send type above `TX_ROUTED` is "multicast": pipe 0, `auto_ack = 0x3E`);
+  2. master `update()` (at the joiner's next `read()`): answers `_write(0o4444, TX_PHYSICAL)` — unacknowledged,
+     to pipe 0 of 0o4444; the joiner's `_net_update()` returns 194, `_make_contact` polls on for 55 ms;
+  3. joiner `_write(0, TX_PHYSICAL)`: MESH_ADDR_REQUEST (`reserved` = ID), unacknowledged, pipe 0 of address 0;
+  4. master `update()`: `_do_dhcp`, `_dhcp()` records the lease and answers `_write(0o4444, TX_PHYSICAL)`
+     (type 128, `reserved` = ID, body = address), unacknowledged; the joiner's `_net_update()` returns 128;
+  5. joiner `_begin(a)`, then `lookup_node_id(a)`: `_write(0, TX_NORMAL)` — acknowledged, to pipe `a`'s
+     parent pipe of the master; 6. master answers type 198 `_write(a, TX_NORMAL)` — acknowledged, pipe 5 of `a`.
+
+Proved here, for every state satisfying the stated invariant (any table, any ID, any clocks):
+
+* `C17_write_unacked_closed` — **one unacknowledged `_write`** (frames 1–4 are instances): `True`,
+  listening restored, every other radio has `receive`d the packet; `C17_receive_pipe0` — a listening
+  node radio stores such a packet on pipe 0, without acknowledging;
+* `C17_leg_master_request_closed` — frame 4's sender: the master's whole `update()` on a received request;
+* `C17_leg_request_closed` — **frames 3 and 4 end to end** (two nodes): the joiner's `_write` and its next
+  `_net_update()`, the master's `update()` nested inside the joiner's `read()`: returns 128, the
+  joiner's `frame_buf` is the response (which passes `C17_accept`'s test), the master's table is
+  C16's allocation `Mesh.dhcp t 0o4444 i`, `_do_dhcp` clear, both nodes listening with empty FIFOs.
+
+Full statement, **not yet proved as one theorem** (`C17_join_direct_closed`): from the state before
+`renew_address(timeout)` (joiner unassigned, both RX FIFOs empty, `lastRx = none`), with
+`timeout ≥ 55 ms + the six transmissions`, `meshRenew timeout` returns `some a` with
+`Mesh.setAddress t i a` the master's table, `beginAddr a` the joiner's address attributes, both
+listening.  Missing legs: (a) the poll leg — frames 1–2 are two more instances of
+`C17_write_unacked_closed` with the master's `handleOther` poll branch in between (same shape as
+`C17_leg_request_closed`), **plus the 55 ms wait of `_make_contact`**, which needs a lower bound on the
+virtual time one idle `read()` costs (the contracts say nothing about the clock) to bound the
+number of idle iterations by the loop's fuel; (b) `_begin(a)` on the radio (`set listen / auto_ack /
+retries / open_rx_pipe × 6`: a `NodeRadio` contract for `beginRadio`, C07's listening invariant is
+weaker); (c) the lookup leg — frames 5–6 are `nodeWrite_hop_plain` (NrfProofs/C13HopsLink.lean, receiver
+on the call stack allowed) plus `C17_lookup_master`; (d) the composition through `renewLoop` /
+`requestLoop` / `contactLoop` / `responseWait` / `lookupWait` with their literal fuels.
+-/
+
+
+namespace Nrf.Props.C17
+open Nrf Nrf.Net Nrf.Spec Nrf.Proofs Nrf.Net.Join
+
+/-- **C17, closed system: one unacknowledged `_write`.**  `_write(wd, st)` with `st` above `TX_ROUTED`
+    (`TX_PHYSICAL`, `TX_LOGICAL`, `TX_MULTICAST`), single frame, by a listening node in a quiet closed
+    loss-free network: the result is `True` whatever the frame's type (no NETWORK_ACK business); the
+    node listens again on its own addresses, its RX FIFO and reception history untouched; the fault
+    script is still empty; and **every other radio has `receive`d the packet** addressed to
+    `_pipe_address(wd, 0)` (`Radio.receive`: stored where a listening radio has that address on an
+    open pipe with room, ignored elsewhere). -/
+theorem C17_write_unacked_closed (f : Nat) (s : NetState) (L : LinkCfg) (Pa : List Bytes) (wd st t : Nat)
+    (A pk : Bytes)
+    (hcur : s.cur < s.nodes.length) (hclosed : s.closed = true)
+    (hfuel : s.nodes.length + 2 ≤ f) (hquiet : Quiet s) (hWf : s.drv.Wf)
+    (hNa : NodeRadio L Pa true true 0x3E s.node.rf s.drv.radio)
+    (hrid : ∀ i, i < s.nodes.length → i ≠ s.cur → s.ridAt i ≠ s.ridAt s.cur)
+    (haddr : pipeAddress s.node.cfg wd 0 = .ok A) (hAlen : A.length = 5)
+    (hfaults : s.w.faults = []) (hmsg : s.node.frameBuf.message.length ≤ MAX_FRAG_SIZE)
+    (hpk : s.node.frameBuf.pack = .ok pk)
+    (ht : s.node.frameBuf.header.msgType = .int t) (hst : st > TX_ROUTED) :
+    ∃ D : DrvState, Nrf.Net.nexec (nodeWrite (f + 2) wd st) s = (.ok true, s.afterRf D) ∧
+      D.d.rid = s.node.rf.rid ∧ D.w.radios.length = s.w.radios.length ∧ D.w.faults = [] ∧
+      NodeRadio L Pa true true 0x3E D.d D.radio ∧ D.radio.rxFifo = s.drv.radio.rxFifo ∧
+      D.radio.lastRx = s.drv.radio.lastRx ∧
+      (∃ pid, ∀ i, i ≠ s.ridAt s.cur → D.w.radio i = ((s.w.radio i).receive (unicastPacket L A pk pid)).1) :=
+  mc_write f s L Pa wd st t A pk hcur hclosed hfuel hquiet hWf hNa hrid haddr hAlen hfaults hmsg hpk ht hst
+
+/-- **C17, reception on pipe 0**: a listening node radio whose pipe-0 address is the packet's, with room
+    and the packet not a repetition of the last one, stores it once on pipe 0 and does **not**
+    acknowledge it; the driver contracts of the unacknowledged transmit role hold for every state. -/
+theorem C17_receive_pipe0 {L : LinkCfg} {P : List Bytes} {d : Rf24} {r : Radio}
+    (h : NodeRadio L P true true 0x3E d r) (A buf : Bytes) (pid : Nat) (hA : P[0]? = some A)
+    (hroom : r.rxFifo.length < 3) (hdup : r.lastRx ≠ some { pid := pid, addr := A, data := buf }) :
+    r.receive (unicastPacket L A buf pid) = (r.got0 A buf pid, none) ∧
+    NodeRadio L P true true 0x3E d (r.got0 A buf pid) :=
+  ⟨receive_pipe0 h A buf pid hA hroom hdup, got0_nodeRadio h A buf pid⟩
+
+/-- the hypotheses of `C17_write_unacked_closed` / `C17_receive_pipe0` hold in the concrete network
+    `joinEx` (master on radio 0, joiner ID 7 on radio 1 about to send its request): the request
+    reaches the master's pipe 0 -/
+example : ∃ D : DrvState, ∃ pk, (reqFrame 3 7 0).pack = .ok pk ∧
+    Nrf.Net.nexec (nodeWrite 6 0 TX_PHYSICAL) joinEx = (.ok true, joinEx.afterRf D) ∧
+    ∃ pid, D.w.radio 0 = (joinEx.radioAt 0).got0 [195, 204, 204, 204, 204] pk pid := by
+  obtain ⟨pk, hpk⟩ := pack_ok (reqFrame 3 7 0) MESH_ADDR_REQUEST rfl
+  obtain ⟨D, e, _, _, _, _, _, _, pid, o⟩ := C17_write_unacked_closed 4 joinEx Example.L PX 0 TX_PHYSICAL
+    MESH_ADDR_REQUEST [195, 204, 204, 204, 204] pk (by decide) rfl (by decide)
+    (by intro k hk hkc hka
+        have : k = 0 := by
+          have h1 : k < 2 := hk
+          have h2 : k ≠ 1 := hkc
+          omega
+        subst this; rfl)
+    (show (1 : Nat) < 2 by decide) joinEx_radio1
+    (by intro k hk hkc
+        have : k = 0 := by
+          have h1 : k < 2 := hk
+          have h2 : k ≠ 1 := hkc
+          omega
+        subst this; decide)
+    pa0 rfl rfl (by decide) hpk rfl (by decide)
+  refine ⟨D, pk, hpk, e, pid, ?_⟩
+  rw [o 0 (by decide)]
+  have h0 : (joinEx.radioAt 0).lastRx = none := rfl
+  exact congrArg Prod.fst (C17_receive_pipe0 joinEx_radio0 _ pk pid rfl (by decide) (by rw [h0]; intro h; cases h)).1
+
+/-- **C17, closed system: the master handles an address request** (any number of nodes).  The
+    master — class RF24Mesh, ID 0, address 0, listening, `_do_dhcp` clear, running `update()` in a
+    quiet closed loss-free network — finds an address request from the unassigned address
+    (`reserved = i ≠ 0`) as the only payload in its RX FIFO, and the candidate loop of `_dhcp` finds
+    `a`.  Then `update()` returns 195; afterwards the master's node object is `leased …`: table
+    `Mesh.setAddress t i a`, `_do_dhcp` clear, `frame_buf` = the response (type 128, `reserved = i`,
+    body `a`); the response has been transmitted — unacknowledged — to `_pipe_address(0o4444, 0)`:
+    every other radio has `receive`d it; the master listens again, its RX FIFO empty. -/
+theorem C17_leg_master_request_closed (f : Nat) (sm : NetState) (L : LinkCfg) (Pm : List Bytes) (p i a fid : Nat)
+    (A pk pk' : Bytes)
+    (hcur : sm.cur < sm.nodes.length) (hclosed : sm.closed = true)
+    (hfuel : sm.nodes.length + 2 ≤ f) (hquiet : Quiet sm) (hWf : sm.drv.Wf)
+    (hN : NodeRadio L Pm true true 0x3E sm.node.rf sm.drv.radio)
+    (hrid : ∀ k, k < sm.nodes.length → k ≠ sm.cur → sm.ridAt k ≠ sm.ridAt sm.cur)
+    (harr : sm.node.arrivals = []) (hfifo : sm.drv.radio.rxFifo = [{ pipe := p, data := pk }]) (hp : p ≤ 5)
+    (hfaults : sm.w.faults = [])
+    (hpk : (reqFrame fid i 0).pack = .ok pk) (hi0 : i ≠ 0) (hi : i ≤ 255) (hfid : fid < 65536)
+    (hkind : sm.node.kind = .meshMaster) (hid : sm.node.nodeId = 0) (haddr0 : sm.node.a.addr = 0)
+    (hret : sm.node.retSysMsg = true) (hdo : sm.node.doDhcp = false)
+    (hA : pipeAddress sm.node.cfg NETWORK_DEFAULT_ADDR 0 = .ok A) (hAlen : A.length = 5)
+    (hfind : dhcpFind sm.node.dhcp i 0 0 (Mesh.MESH_MAX_CHILDREN + 1) = some a) (ha : a < 65536)
+    (hpk' : (respFrame fid i a).pack = .ok pk') :
+    ∃ D1 D2 : DrvState,
+      Nrf.Net.nexec (nodeUpdate (f + 4)) sm =
+        (.ok MESH_ADDR_REQUEST, ((sm.afterRf D1).putNode (leased sm.node D1.d fid i a)).afterRf D2) ∧
+      (leased sm.node D1.d fid i a).dhcp = (Mesh.dhcp sm.node.dhcp NETWORK_DEFAULT_ADDR i true).1 ∧
+      DrvFrame sm.drv D1 ∧ D1.radio.rxFifo = [] ∧
+      D2.d.rid = sm.node.rf.rid ∧ D2.w.radios.length = sm.w.radios.length ∧ D2.w.faults = [] ∧
+      NodeRadio L Pm true true 0x3E D2.d D2.radio ∧ D2.radio.rxFifo = [] ∧
+      D2.radio.lastRx = sm.drv.radio.lastRx ∧
+      (∃ pid, ∀ r, r ≠ sm.ridAt sm.cur →
+        D2.w.radio r = ((sm.w.radio r).receive (unicastPacket L A pk' pid)).1) := by
+  obtain ⟨D1, D2, h1, h2, h3, h4, h5, h6, h7, h8, h9, h10⟩ := master_request f sm L Pm p i a fid A pk pk' hcur hclosed
+    hfuel hquiet hWf hN hrid harr hfifo hp hfaults hpk hi0 hi hfid hkind hid haddr0 hret hdo hA hAlen hfind ha hpk'
+  exact ⟨D1, D2, h1, (dhcp_direct _ i a true hfind).symm, h2, h3, h4, h5, h6, h7, h8, h9, h10⟩
+
+example : dhcpFind [] 7 0 0 (Mesh.MESH_MAX_CHILDREN + 1) = some 5 ∧
+    dhcpFind [(7, 5)] 9 0 0 (Mesh.MESH_MAX_CHILDREN + 1) = some 4 ∧
+    (Mesh.dhcp [(7, 5)] NETWORK_DEFAULT_ADDR 9 true).1 = [(7, 5), (9, 4)] := by decide
+
+/-- **C17, closed system: the request leg of a join, end to end** (frames 3 and 4 of the sequence
+    above; two nodes, loss-free).  The joiner `x` (ID `i`, unassigned, on the call stack, listening,
+    `frame_buf` = its address request for contact 0) and the master `m` (RF24Mesh, ID 0, address 0,
+    table `t`, `_do_dhcp` clear, listening, off the call stack); both RX FIFOs empty, neither radio
+    having just received the very packet that is about to be sent (`lastRx = none` is enough); the
+    candidate loop of `_dhcp` finds `a` (a free level-1 slot).  Then
+
+    * `_write(0, TX_PHYSICAL)` of the joiner returns `True`, and its next `_net_update()` returns
+      **128** (`MESH_ADDR_RESPONSE`) — within that call the master's `update()` ran (`runOthers`), and
+      nothing else;
+    * afterwards the joiner's `frame_buf` is the response — type 128, `reserved = i`, body `a`: it
+      passes the acceptance test of `C17_accept` for contact 0 — and nothing else of the joiner's
+      node object changed;
+    * **the master's table is `Mesh.setAddress t i a` = C16's allocation `Mesh.dhcp t 0o4444 i`**
+      (lease recorded under the ID; the other leases as `C16` says), `_do_dhcp` is clear, its
+      `frame_buf` is the response, nothing else of its node object changed;
+    * both nodes listen again on their own six addresses (`NodeRadio … true true 0x3E`), both RX
+      FIFOs are empty, the fault script is still empty, the joiner is still the running node. -/
+theorem C17_leg_request_closed (f : Nat) (s : NetState) (L : LinkCfg) (Pm Px : List Bytes) (m x i a fid : Nat)
+    (Am Ax pk pk' : Bytes)
+    (hlen : s.nodes.length = 2) (hm : m < 2) (hx : x < 2) (hmx : m ≠ x)
+    (hcur : s.cur = x) (hact : s.active = [x]) (hclosed : s.closed = true) (hfaults : s.w.faults = [])
+    (hfuel : 4 ≤ f)
+    (hridm : s.ridAt m < s.w.radios.length) (hridx : s.ridAt x < s.w.radios.length)
+    (hridne : s.ridAt m ≠ s.ridAt x)
+    (hNm : NodeRadio L Pm true true 0x3E (s.nodeAt m).rf (s.radioAt m))
+    (hNx : NodeRadio L Px true true 0x3E (s.nodeAt x).rf (s.radioAt x))
+    (hfm : (s.radioAt m).rxFifo = []) (hfx : (s.radioAt x).rxFifo = [])
+    (hdupm : ∀ pid, (s.radioAt m).lastRx ≠ some { pid := pid, addr := Am, data := pk })
+    (hdupx : ∀ pid, (s.radioAt x).lastRx ≠ some { pid := pid, addr := Ax, data := pk' })
+    (harrm : (s.nodeAt m).arrivals = []) (harrx : (s.nodeAt x).arrivals = [])
+    (hAm : Pm[0]? = some Am) (hAx : Px[0]? = some Ax)
+    (hxfb : (s.nodeAt x).frameBuf = reqFrame fid i 0) (hxaddr : (s.nodeAt x).a.addr = NETWORK_DEFAULT_ADDR)
+    (hxret : (s.nodeAt x).retSysMsg = true) (hxcfg : pipeAddress (s.nodeAt x).cfg 0 0 = .ok Am)
+    (hkind : (s.nodeAt m).kind = .meshMaster) (hid : (s.nodeAt m).nodeId = 0) (hmaddr : (s.nodeAt m).a.addr = 0)
+    (hmret : (s.nodeAt m).retSysMsg = true) (hdo : (s.nodeAt m).doDhcp = false)
+    (hmcfg : pipeAddress (s.nodeAt m).cfg NETWORK_DEFAULT_ADDR 0 = .ok Ax)
+    (hfind : dhcpFind (s.nodeAt m).dhcp i 0 0 (Mesh.MESH_MAX_CHILDREN + 1) = some a) (ha : a < 65536)
+    (hi0 : i ≠ 0) (hi : i ≤ 255) (hfid : fid < 65536)
+    (hpk : (reqFrame fid i 0).pack = .ok pk) (hpk' : (respFrame fid i a).pack = .ok pk') :
+    ∃ s1 s2 : NetState,
+      Nrf.Net.nexec (nodeWrite (f + 2) 0 TX_PHYSICAL) s = (.ok true, s1) ∧
+      Nrf.Net.nexec (netUpdate (f + 7 + m) 0) s1 = (.ok MESH_ADDR_RESPONSE, s2) ∧
+      s2.cur = x ∧ s2.active = [x] ∧ s2.nodes.length = 2 ∧ s2.closed = true ∧ s2.w.faults = [] ∧
+      (s2.nodeAt x).body = { (s.nodeAt x).body with frameBuf := respFrame fid i a } ∧
+      (s2.nodeAt m).body = { (s.nodeAt m).body with frameBuf := respFrame fid i a,
+                                                    dhcp := Mesh.setAddress (s.nodeAt m).dhcp i a, doDhcp := false } ∧
+      Mesh.setAddress (s.nodeAt m).dhcp i a = (Mesh.dhcp (s.nodeAt m).dhcp NETWORK_DEFAULT_ADDR i true).1 ∧
+      ((respFrame fid i a).header.reserved = i ∧ (respFrame fid i a).header.ty = MESH_ADDR_RESPONSE ∧
+        unpackH (pySlice (respFrame fid i a).message 0 2) = .ok a) ∧
+      NodeRadio L Pm true true 0x3E (s2.nodeAt m).rf (s2.radioAt m) ∧
+      NodeRadio L Px true true 0x3E (s2.nodeAt x).rf (s2.radioAt x) ∧
+      (s2.radioAt m).rxFifo = [] ∧ (s2.radioAt x).rxFifo = [] ∧
+      s2.ridAt m = s.ridAt m ∧ s2.ridAt x = s.ridAt x := by
+  obtain ⟨s1, s2, h1, h2, h3, h4, h5, h6, h7, h8, h9, h10, h11, h12, h13, h14, h15⟩ := leg_request f s L Pm Px m x i a
+    fid Am Ax pk pk' hlen hm hx hmx hcur hact hclosed hfaults hfuel hridm hridx hridne hNm hNx hfm hfx hdupm hdupx
+    harrm harrx hAm hAx hxfb hxaddr hxret hxcfg hkind hid hmaddr hmret hdo hmcfg hfind ha hi0 hi hfid hpk hpk'
+  exact ⟨s1, s2, h1, h2, h3, h4, h5, h6, h7, h8, h9, (dhcp_direct _ i a true hfind).symm,
+    respFrame_accept fid i a ha, h10, h11, h12, h13, h14, h15⟩
+
+/-- the hypotheses are satisfiable: in `joinEx` (master with an empty table on radio 0, joiner ID 7
+    on radio 1 with its request in `frame_buf`) the leg runs and leases 0o5 — as the real code does
+    on `net 2 1 new m master 0 0 ; new x mesh 1 7 ; x renew 1500` -/
+example : ∃ s1 s2 : NetState,
+    Nrf.Net.nexec (nodeWrite 6 0 TX_PHYSICAL) joinEx = (.ok true, s1) ∧
+    Nrf.Net.nexec (netUpdate 11 0) s1 = (.ok MESH_ADDR_RESPONSE, s2) ∧
+    (s2.nodeAt 0).body.dhcp = [(7, 5)] ∧ (s2.nodeAt 1).body.frameBuf = respFrame 3 7 5 := by
+  obtain ⟨pk, hpk⟩ := pack_ok (reqFrame 3 7 0) MESH_ADDR_REQUEST rfl
+  obtain ⟨pk', hpk'⟩ := pack_ok (respFrame 3 7 5) MESH_ADDR_RESPONSE rfl
+  obtain ⟨s1, s2, h1, h2, _, _, _, _, _, h8, h9, _⟩ := C17_leg_request_closed 4 joinEx Example.L Example.P0 PX 0 1 7 5 3
+    [195, 204, 204, 204, 204] [204, 62, 204, 204, 204] pk pk' rfl (by decide) (by decide) (by decide) rfl rfl rfl rfl
+    (by decide) (by decide) (by decide) (by decide) joinEx_radio0 joinEx_radio1 rfl rfl
+    (by intro pid; rw [show (joinEx.radioAt 0).lastRx = none from rfl]; intro h; cases h)
+    (by intro pid; rw [show (joinEx.radioAt 1).lastRx = none from rfl]; intro h; cases h)
+    rfl rfl rfl rfl rfl rfl rfl pa0 rfl rfl rfl rfl rfl pa4444 (by decide) (by decide) (by decide) (by decide)
+    (by decide) hpk hpk'
+  refine ⟨s1, s2, h1, h2, ?_, ?_⟩
+  · rw [h9]; rfl
+  · rw [h8]
 
 end Nrf.Props.C17
